@@ -44,7 +44,7 @@ def run(tier, seed):
     chk = CheckRun('C09', tier, seed)
     th = tier == 'thorough'
     rnd = random.Random(seed)
-    fams = [('composite', fam.fam_composite()[seed % 6::6] if not th else fam.fam_composite()[::2]),
+    fams = [('composite', fam.fam_composite()[seed % 5::5] if not th else fam.fam_composite()[::3]),
             ('orders', fam.fam_orders()[seed % 8::8] if not th else fam.fam_orders()[::3]),
             ('structured', fam.fam_structured()[::3] if not th else fam.fam_structured())]
     for tag, cfgs in fams:
@@ -76,9 +76,11 @@ def run(tier, seed):
             all_perms = list(itertools.permutations(range(n)))
             rnd2 = random.Random(seed * 1000 + cfg['id'])
             chosen = all_perms if (th and n <= 4) else [all_perms[0]] + rnd2.sample(all_perms[1:], min(3, len(all_perms) - 1))
+            # every renaming occurs at least once per configuration (first with the identity order), then the permutations rotate through them
+            chosen = [all_perms[0]] * len(RENAMINGS) + list(chosen[1:])
             out = []
             for k, perm in enumerate(chosen):
-                rname, fa, fn = RENAMINGS[(k + cfg['id']) % len(RENAMINGS)] if not th else RENAMINGS[k % len(RENAMINGS)]
+                rname, fa, fn = RENAMINGS[k % len(RENAMINGS)]
                 kw = dict(names=fa, nodes=fn, order=perm)
                 if cfg.get('struct'):
                     kw['struct'] = cfg['struct']
